@@ -12,10 +12,13 @@
     reload_current_full_fails no_reload_first_version_until_evicted
     same_object_while_unchanged callback_once_per_parse callback_once_per_load
     failed_load_is_noop lock_balanced loader_cache_bounded
+    model_alphabet_is_overridden_interface no_unmodelled_own_method
+    inherited_get_not_overridden default_loader_bounded
 -/
 import Genshi.Lemmas.Lru
 import Genshi.Lemmas.LruAbs
 import Genshi.Lemmas.Loader
+import Genshi.Gen.Loader
 namespace Genshi.Props.C15
 open Genshi.Lru
 variable {K V : Type} [DecidableEq K]
@@ -137,6 +140,34 @@ theorem inherited_get_misses :
       crun (empty 3 ⟨none, none, 0, 0⟩) [.set 0 10] = some (c, os) ∧
       contains c 0 = true ∧ inheritedGet c 0 = none := by
   refine ⟨_, _, rfl, by decide, rfl⟩
+
+/-! ### tie to the class as it is now (generated table `Genshi/Gen/Loader.lean`) -/
+
+/-- the methods the model's operations stand for, and the helpers they are made of -/
+def modelledMethods : List (List Char) := [
+  ['_', '_', 'c', 'o', 'n', 't', 'a', 'i', 'n', 's', '_', '_'],
+  ['_', '_', 'g', 'e', 't', 'i', 't', 'e', 'm', '_', '_'],
+  ['_', '_', 'i', 't', 'e', 'r', '_', '_'],
+  ['_', '_', 'l', 'e', 'n', '_', '_'],
+  ['_', '_', 's', 'e', 't', 'i', 't', 'e', 'm', '_', '_'],
+  ['_', 'i', 'n', 's', 'e', 'r', 't', '_', 'i', 't', 'e', 'm'],
+  ['_', 'm', 'a', 'n', 'a', 'g', 'e', '_', 's', 'i', 'z', 'e'],
+  ['_', 'u', 'p', 'd', 'a', 't', 'e', '_', 'i', 't', 'e', 'm']]
+
+/-- Every operation of the model is a method the class defines itself … -/
+theorem model_alphabet_is_overridden_interface :
+    ∀ m ∈ modelledMethods, m ∈ Genshi.Gen.Loader.lruOwnMethods := by decide
+
+/-- … and the class defines nothing else (besides `__init__` and `__repr__`): a new method, for
+    instance an overriding `get` or `__delitem__`, breaks this theorem and calls for the model to
+    be extended. -/
+theorem no_unmodelled_own_method :
+    ∀ m ∈ Genshi.Gen.Loader.lruOwnMethods,
+      m ∈ modelledMethods ∨ m = ['_', '_', 'i', 'n', 'i', 't', '_', '_'] ∨
+      m = ['_', '_', 'r', 'e', 'p', 'r', '_', '_'] := by decide
+
+/-- the precondition of finding C15-inherited-dict: `get` is still the base class's -/
+theorem inherited_get_not_overridden : ['g', 'e', 't'] ∈ Genshi.Gen.Loader.lruInheritedMapping := by decide
 
 /-! ## the loader -/
 section Loader
@@ -279,6 +310,13 @@ theorem loader_cache_bounded (cfg : Cfg) (ops : List HOp) :
   have hc := hrun_cap cfg (World.init cfg.cap) ops
   have hc' : (hrun cfg (World.init cfg.cap) ops).1.ls.cache.cap = cfg.cap := hc
   exact ⟨Nat.le_trans hi.awf.1 (Nat.le_of_eq hc'), hi.awf.2⟩
+
+/-- … in particular with the constructor's default `max_cache_size`. -/
+theorem default_loader_bounded (path : List Entry) (ar : Bool) (ops : List HOp) :
+    (hrun ⟨path, ar, Genshi.Gen.Loader.defaultMaxCacheSize, true⟩
+        (World.init Genshi.Gen.Loader.defaultMaxCacheSize) ops).1.ls.cache.items.length
+      ≤ Genshi.Gen.Loader.defaultMaxCacheSize :=
+  (loader_cache_bounded ⟨path, ar, Genshi.Gen.Loader.defaultMaxCacheSize, true⟩ ops).1
 
 end Loader
 
